@@ -431,6 +431,46 @@ def cmd_recheck(argv):
     cmd_report([])
 
 
+def cmd_rxdiff(argv):
+    """tools/mutate.py rxdiff [examples]: every recorded survivor that still applies and sits in the compile side (src/jasm/jasm_regex,
+    global_definitions.py, the shipped macro file) compiles the same generated rules as the clean tree (vlib/rxdump.py); the number
+    of rules whose regex text (or error) differs is recorded.  0 = equivalent on the generated domain."""
+    n = argv[0] if argv else "400"
+    muts = {m["id"]: m for m in json.load(open(os.path.join(OUT, "survivors.json")))}
+    rp = os.path.join(OUT, "results.json")
+    res = json.load(open(rp))
+    clean = os.path.join(OUT, "rx_clean.json")
+    env0 = dict(os.environ, PYTHONHASHSEED="0")
+    env0.pop("VERIF_REPO", None)
+    subprocess.run(["/venv/bin/python", "-m", "vlib.rxdump", clean, n], cwd=VERIF, env=env0, check=True, capture_output=True)
+    base_rows = json.load(open(clean))
+    for mid, r in sorted(res.items()):
+        if r["killed_by"] or r.get("stale") or "rxdiff" in r:
+            continue
+        m = muts.get(mid)
+        side = m is not None and ("/jasm_regex/" in m["file"] or m["file"].endswith(("global_definitions.py", "jasm_macros.yaml")))
+        try:
+            ok = side and open(os.path.join("/repo", m["file"])).read()[m["start"]:m["end"]] == m["old"]
+        except OSError:
+            ok = False
+        if not ok:
+            continue
+        base, copy = make_copy(m)
+        try:
+            outp = os.path.join(base, "rx.json")
+            p = subprocess.run(["/venv/bin/python", "-m", "vlib.rxdump", outp, n], cwd=VERIF, env=dict(env0, VERIF_REPO=copy), capture_output=True, text=True)
+            if p.returncode != 0:
+                r["rxdiff"] = {"error": (p.stderr or p.stdout)[-300:]}
+            else:
+                rows = json.load(open(outp))
+                diff = [(a, b) for a, b in zip(base_rows, rows) if a[3] != b[3]]
+                r["rxdiff"] = {"rules": len(rows), "differ": len(diff), "examples": [[a[0], a[2], a[4][:200]] for a, _ in diff[:4]]}
+        finally:
+            shutil.rmtree(base, ignore_errors=True)
+        json.dump(res, open(rp, "w"), indent=0)
+        print(mid, r["file"].split("/")[-1], r["line"], r["op"], r["rxdiff"].get("differ", "ERR"), "of", r["rxdiff"].get("rules"), "|", r["what"][:60], flush=True)
+
+
 def cmd_report(argv):
     res = json.load(open(os.path.join(OUT, "results.json")))
     k = sum(1 for r in res.values() if r["killed_by"])
@@ -447,4 +487,4 @@ def cmd_report(argv):
 
 
 if __name__ == "__main__":
-    {"gen": cmd_gen, "filter": cmd_filter, "kill": cmd_kill, "second": cmd_second, "recheck": cmd_recheck, "report": cmd_report}[sys.argv[1]](sys.argv[2:])
+    {"gen": cmd_gen, "filter": cmd_filter, "kill": cmd_kill, "second": cmd_second, "recheck": cmd_recheck, "rxdiff": cmd_rxdiff, "report": cmd_report}[sys.argv[1]](sys.argv[2:])
